@@ -376,9 +376,9 @@ Qed.
 (* ------------------------------------------------------------------------------------------ *)
 (* the min-coin helper of the output builder *)
 
-Lemma calc_output_base_le a ma d s c :
+Lemma calc_output_base_le a ma d s c c' :
   a <= fake_addr_len ->
-  out_base (mkOut a c ma d s) <= out_base (calc_output None (Some (c, ma)) d s).
+  out_base (mkOut a c ma d s) <= out_base (calc_output None (Some (c', ma)) d s).
 Proof.
   intros H. unfold out_base, out_size, out_value_size, calc_output, map_form, set_coin.
   cbn [o_addr o_coin o_ma o_datum o_sref].
@@ -419,7 +419,7 @@ Proof.
   pose proof (min_ada_sound _ _ _ C) as S. cbn [calc_output o_coin] in S.
   pose proof (rounds_ge 3 cpb _ _ _ (eq_trans (eq_sym (calculate_ada_abs_eq _ _)) C)) as G.
   rewrite meets_min_abs_eq in S |- *. cbn [set_coin calc_output o_coin] in S |- *.
-  eapply meets_min_abs_base_mono; [apply (calc_output_base_le addr ma d s c A)|].
+  eapply meets_min_abs_base_mono; [apply (calc_output_base_le addr ma d s c c A)|].
   change (out_base (set_coin (calc_output None (Some (c1, ma)) d s) (N.max c c1)))
     with (out_base (calc_output None (Some (c, ma)) d s)) in S.
   destruct (N.le_ge_cases c1 c) as [L | L].
